@@ -1551,7 +1551,7 @@ const K_HISTR: u64 = 10;
 const K_HISTI: u64 = 11;
 
 #[derive(Clone, Debug)]
-enum HR {
+pub(crate) enum HR {
     WithLen(usize, bool),
     Resize(usize, bool),
     Clear,
@@ -1564,7 +1564,7 @@ enum HR {
     CountOnes,
 }
 
-fn hr_term(o: &HR) -> String {
+pub(crate) fn hr_term(o: &HR) -> String {
     match o {
         HR::WithLen(l, v) => format!("HWithLen {} {}", nz(*l), b(*v)),
         HR::Resize(l, v) => format!("HResize {} {}", nz(*l), b(*v)),
@@ -1594,7 +1594,7 @@ fn hr_name(o: &HR) -> &'static str {
     }
 }
 
-fn hr_apply(v: &mut RawVector, o: &HR) {
+pub(crate) fn hr_apply(v: &mut RawVector, o: &HR) {
     match o {
         HR::WithLen(l, x) => *v = RawVector::with_len(*l, *x),
         HR::Resize(l, x) => v.resize(*l, *x),
@@ -1618,7 +1618,7 @@ fn hr_apply(v: &mut RawVector, o: &HR) {
 const HIST_LENS: [usize; 14] = [1, 2, 63, 64, 65, 66, 127, 128, 129, 130, 191, 192, 193, 200];
 
 // `ones`: the history prefers set bits (a vector full of ones is where one stray bit makes count_ones exceed len)
-fn gen_hr(rng: &mut Rng, len: usize, nwords: usize, ones: bool) -> HR {
+pub(crate) fn gen_hr(rng: &mut Rng, len: usize, nwords: usize, ones: bool) -> HR {
     let cap = 64 * nwords;
     loop {
         let k = if len > 300 { 25 + rng.below(35) } else { rng.below(100) };
@@ -1678,7 +1678,7 @@ fn gen_hr(rng: &mut Rng, len: usize, nwords: usize, ones: bool) -> HR {
 }
 
 #[derive(Clone, Debug)]
-enum HI {
+pub(crate) enum HI {
     WithLen(usize, usize, u64),
     From(usize, Vec<u64>),
     Get(usize),
@@ -1693,7 +1693,7 @@ enum HI {
     CountOnes,
 }
 
-fn hi_term(o: &HI) -> String {
+pub(crate) fn hi_term(o: &HI) -> String {
     match o {
         HI::WithLen(l, w, v) => format!("JWithLen {} {} {}", nz(*l), nz(*w), n(*v)),
         HI::From(w, xs) => format!("JFrom {} {}", w, nlist(xs)),
@@ -1727,7 +1727,7 @@ fn hi_name(o: &HI) -> &'static str {
     }
 }
 
-fn hi_apply(v: &mut IntVector, o: &HI) {
+pub(crate) fn hi_apply(v: &mut IntVector, o: &HI) {
     match o {
         HI::WithLen(l, w, x) => *v = IntVector::with_len(*l, *w, *x).unwrap(),
         HI::From(w, xs) => {
@@ -1806,7 +1806,7 @@ fn hist_typed(rng: &mut Rng, t: usize, count: usize, ones: bool) -> Vec<u64> {
 
 const HIST_WIDTHS: [usize; 12] = [1, 2, 3, 7, 8, 13, 31, 32, 33, 48, 63, 64];
 
-fn hist_width(rng: &mut Rng) -> usize {
+pub(crate) fn hist_width(rng: &mut Rng) -> usize {
     if rng.chance(2, 3) {
         *rng.pick(&HIST_WIDTHS)
     } else {
@@ -1814,7 +1814,7 @@ fn hist_width(rng: &mut Rng) -> usize {
     }
 }
 
-fn gen_hi(rng: &mut Rng, len: usize, width: usize, ones: bool) -> HI {
+pub(crate) fn gen_hi(rng: &mut Rng, len: usize, width: usize, ones: bool) -> HI {
     loop {
         let big = len * width > 400 || len > 40;
         let k = if big { 30 + rng.below(30) } else { rng.below(100) };
